@@ -1,6 +1,7 @@
 From AQ Require Import lib.Base model.Codec model.Varint model.RangeSet model.AckFrame model.Header.
-From AQ Require Import model.TlsCodec model.TParams proofs.TParamsProofs.
+From AQ Require Import model.TlsCodec model.TParams proofs.TParamsProofs proofs.TParamsRoundtrip proofs.TParamsReencode.
 From AQ Require Import proofs.CodecProofs proofs.VarintProofs proofs.AckFrameProofs proofs.HeaderProofs proofs.TlsCodecProofs.
+From AQ Require Import proofs.TlsListProofs proofs.TlsRoundtrip proofs.TlsTotal proofs.TlsDumpInverse.
 
 (* ---- variable-length integers (RFC 9000 section 16) ---- *)
 Theorem varint_roundtrip : forall v rest, 0 <= v < 2 ^ 62 ->
@@ -188,3 +189,205 @@ Theorem tparams_pull_total : forall bs, bytes_ok bs ->
   match pull_quic_transport_parameters bs with Ok _ => True | Err k => k = E_READ \/ k = E_VALUE end.
 Proof. exact TParamsProofs.tparams_pull_total. Qed.
 Print Assumptions tparams_pull_total.
+
+(* ---- transport parameters: round trip of the whole QuicTransportParameters object ---- *)
+Theorem tparams_roundtrip : forall r, qtp_wf r = true ->
+  exists bytes, flatten (push_qtp r) = Ok bytes /\ pull_qtp bytes = Ok r.
+Proof. exact TParamsRoundtrip.tparams_roundtrip. Qed.
+Print Assumptions tparams_roundtrip.
+
+Theorem tparams_roundtrip_buffer : forall r cap, qtp_wf r = true ->
+  exists bytes, flatten (push_qtp r) = Ok bytes /\
+    (Zlen bytes <= cap -> w_chunks cap [] (push_qtp r) = Ok bytes) /\ pull_qtp bytes = Ok r.
+Proof. exact TParamsRoundtrip.tparams_roundtrip_buffer. Qed.
+Print Assumptions tparams_roundtrip_buffer.
+
+Theorem tparams_roundtrip_fields : forall fs, fields_wf PARAMS fs = true ->
+  exists bytes, flatten (push_quic_transport_parameters (entries PARAMS fs)) = Ok bytes /\
+                pull_quic_transport_parameters bytes = Ok (entries PARAMS fs).
+Proof. exact TParamsRoundtrip.tparams_roundtrip_fields. Qed.
+Print Assumptions tparams_roundtrip_fields.
+
+Theorem tparams_roundtrip_zero_ip_refuted :
+  addr_typed 4 (Some ([0; 0; 0; 0], 443)) = true /\
+  exists bytes r', flatten (push_qtp qtp_zero_ip) = Ok bytes /\ pull_qtp bytes = Ok r' /\ r' <> qtp_zero_ip /\
+    q_preferred_address r' = Some (None, None, [1; 2; 3; 4], repeat 5 16).
+Proof. exact TParamsRoundtrip.tparams_roundtrip_zero_ip_refuted. Qed.
+Print Assumptions tparams_roundtrip_zero_ip_refuted.
+
+Theorem tparams_roundtrip_none_flag_refuted :
+  exists bytes r', flatten (push_qtp qtp_none_flag) = Ok bytes /\ pull_qtp bytes = Ok r' /\ r' <> qtp_none_flag /\
+    q_disable_active_migration r' = Some false.
+Proof. exact TParamsRoundtrip.tparams_roundtrip_none_flag_refuted. Qed.
+Print Assumptions tparams_roundtrip_none_flag_refuted.
+
+(* ---- TLS handshake messages: the tree encoder, list decoding, round trips, totality ---- *)
+Theorem enc_seq_spec : forall l, enc_seq l = if fits_seq l then Ok (flat_seq l) else Err E_OVERFLOW.
+Proof. exact TlsListProofs.enc_seq_spec. Qed.
+Print Assumptions enc_seq_spec.
+
+Theorem pull_fold_fuel : forall (S : Type) (item : S -> list Z -> Res (S * list Z)), item_progress item ->
+  forall fuel rem st bs, (length bs <= fuel)%nat ->
+  pull_fold item fuel rem st bs = pull_fold item (length bs) rem st bs.
+Proof. exact @TlsListProofs.pull_fold_fuel. Qed.
+Print Assumptions pull_fold_fuel.
+
+Theorem pull_list_fuel : forall (S : Type) cap (item : S -> list Z -> Res (S * list Z)), item_progress item ->
+  forall fuel st bs, (length bs <= fuel)%nat ->
+  pull_block cap (fun len b => pull_fold item fuel len st b) bs = pull_list cap item st bs.
+Proof. exact @TlsListProofs.pull_list_fuel. Qed.
+Print Assumptions pull_list_fuel.
+
+(* every item function the decoders hand to pull_list consumes at least one byte *)
+Theorem tls_items_progress :
+  (forall w, (1 <= w)%nat -> item_progress (item_uint w)) /\ item_progress item_key_share /\
+  item_progress item_alpn /\ item_progress item_psk_identity /\
+  (forall cap, (1 <= cap)%nat -> item_progress (item_opaque cap)) /\ item_progress item_certificate_entry /\
+  item_progress (ext_item parse_client_hello_ext true) /\ item_progress (ext_item parse_server_hello_ext false) /\
+  item_progress (ext_item parse_nst_ext false) /\ item_progress (ext_item parse_ee_ext false) /\
+  item_progress (ext_item parse_cr_ext false).
+Proof. exact TlsRoundtrip.tls_items_progress. Qed.
+Print Assumptions tls_items_progress.
+
+Theorem pull_ack_ranges_fuel : forall fuel count end_ acc bs, (length bs <= fuel)%nat ->
+  pull_ack_ranges fuel count end_ acc bs = pull_ack_ranges (length bs) count end_ acc bs.
+Proof. exact TlsTotal.pull_ack_ranges_fuel. Qed.
+Print Assumptions pull_ack_ranges_fuel.
+
+Theorem pull_extensions_enc : forall parse ch xs rest,
+  Forall (x_ok parse) xs -> psk_order ch false xs = true ->
+  fits_tv (TBlock 2 (flat_map x_tree xs)) = true ->
+  pull_extensions parse ch (flat_tv (TBlock 2 (flat_map x_tree xs)) ++ rest)
+  = Ok (fold_left (x_step ch) xs est0, rest).
+Proof. exact TlsRoundtrip.pull_extensions_enc. Qed.
+Print Assumptions pull_extensions_enc.
+
+Theorem client_hello_roundtrip : forall m bytes rest, client_hello_wf m = true -> enc_seq (tree_client_hello m) = Ok bytes ->
+  pull_client_hello (bytes ++ rest) = Ok (dump_client_hello m, rest).
+Proof. exact TlsRoundtrip.client_hello_roundtrip. Qed.
+Print Assumptions client_hello_roundtrip.
+
+Theorem server_hello_roundtrip : forall m bytes rest, server_hello_wf m = true -> enc_seq (tree_server_hello m) = Ok bytes ->
+  pull_server_hello (bytes ++ rest) = Ok (dump_server_hello m, rest).
+Proof. exact TlsRoundtrip.server_hello_roundtrip. Qed.
+Print Assumptions server_hello_roundtrip.
+
+Theorem new_session_ticket_roundtrip : forall m bytes rest, new_session_ticket_wf m = true -> enc_seq (tree_new_session_ticket m) = Ok bytes ->
+  pull_new_session_ticket (bytes ++ rest) = Ok (dump_new_session_ticket m, rest).
+Proof. exact TlsRoundtrip.new_session_ticket_roundtrip. Qed.
+Print Assumptions new_session_ticket_roundtrip.
+
+Theorem encrypted_extensions_roundtrip : forall m bytes rest, encrypted_extensions_wf m = true -> enc_seq (tree_encrypted_extensions m) = Ok bytes ->
+  pull_encrypted_extensions (bytes ++ rest) = Ok (dump_encrypted_extensions m, rest).
+Proof. exact TlsRoundtrip.encrypted_extensions_roundtrip. Qed.
+Print Assumptions encrypted_extensions_roundtrip.
+
+Theorem certificate_roundtrip : forall m bytes rest, enc_seq (tree_certificate m) = Ok bytes ->
+  pull_certificate (bytes ++ rest) = Ok (dump_certificate m, rest).
+Proof. exact TlsRoundtrip.certificate_roundtrip. Qed.
+Print Assumptions certificate_roundtrip.
+
+Theorem certificate_request_roundtrip : forall m bytes rest, certificate_request_wf m = true -> enc_seq (tree_certificate_request m) = Ok bytes ->
+  pull_certificate_request (bytes ++ rest) = Ok (dump_certificate_request m, rest).
+Proof. exact TlsRoundtrip.certificate_request_roundtrip. Qed.
+Print Assumptions certificate_request_roundtrip.
+
+Theorem certificate_verify_roundtrip : forall m bytes rest, certificate_verify_wf m = true -> enc_seq (tree_certificate_verify m) = Ok bytes ->
+  pull_certificate_verify (bytes ++ rest) = Ok (dump_certificate_verify m, rest).
+Proof. exact TlsRoundtrip.certificate_verify_roundtrip. Qed.
+Print Assumptions certificate_verify_roundtrip.
+
+Theorem client_hello_pull_total : forall bs,
+  msg_good (pull_client_hello bs) /\ (forall t, bs = 1 :: t -> tls_good (pull_client_hello bs)).
+Proof. exact TlsTotal.client_hello_pull_total. Qed.
+Print Assumptions client_hello_pull_total.
+
+Theorem server_hello_pull_total : forall bs,
+  msg_good (pull_server_hello bs) /\ (forall t, bs = 2 :: t -> tls_good (pull_server_hello bs)).
+Proof. exact TlsTotal.server_hello_pull_total. Qed.
+Print Assumptions server_hello_pull_total.
+
+Theorem new_session_ticket_pull_total : forall bs,
+  msg_good (pull_new_session_ticket bs) /\ (forall t, bs = 4 :: t -> tls_good (pull_new_session_ticket bs)).
+Proof. exact TlsTotal.new_session_ticket_pull_total. Qed.
+Print Assumptions new_session_ticket_pull_total.
+
+Theorem encrypted_extensions_pull_total : forall bs,
+  msg_good (pull_encrypted_extensions bs) /\ (forall t, bs = 8 :: t -> tls_good (pull_encrypted_extensions bs)).
+Proof. exact TlsTotal.encrypted_extensions_pull_total. Qed.
+Print Assumptions encrypted_extensions_pull_total.
+
+Theorem certificate_pull_total : forall bs,
+  msg_good (pull_certificate bs) /\ (forall t, bs = 11 :: t -> tls_good (pull_certificate bs)).
+Proof. exact TlsTotal.certificate_pull_total. Qed.
+Print Assumptions certificate_pull_total.
+
+Theorem certificate_request_pull_total : forall bs,
+  msg_good (pull_certificate_request bs) /\ (forall t, bs = 13 :: t -> tls_good (pull_certificate_request bs)).
+Proof. exact TlsTotal.certificate_request_pull_total. Qed.
+Print Assumptions certificate_request_pull_total.
+
+Theorem certificate_verify_pull_total : forall bs,
+  msg_good (pull_certificate_verify bs) /\ (forall t, bs = 15 :: t -> tls_good (pull_certificate_verify bs)).
+Proof. exact TlsTotal.certificate_verify_pull_total. Qed.
+Print Assumptions certificate_verify_pull_total.
+
+Theorem finished_pull_total : forall bs,
+  msg_good (pull_finished bs) /\ (forall t, bs = 20 :: t -> tls_good (pull_finished bs)).
+Proof. exact TlsTotal.finished_pull_total. Qed.
+Print Assumptions finished_pull_total.
+
+(* ---- the dump determines the message; the round trips at the level of records ---- *)
+Theorem tk_dump_inverse :
+  (forall m, tk_client_hello (dump_client_hello m) = m) /\ (forall m, tk_server_hello (dump_server_hello m) = m) /\
+  (forall m, tk_new_session_ticket (dump_new_session_ticket m) = m) /\
+  (forall m, tk_encrypted_extensions (dump_encrypted_extensions m) = m) /\
+  (forall m, tk_certificate (dump_certificate m) = m) /\
+  (forall m, tk_certificate_request (dump_certificate_request m) = m) /\
+  (forall m, tk_certificate_verify (dump_certificate_verify m) = m).
+Proof. exact TlsDumpInverse.tk_dump_inverse. Qed.
+Print Assumptions tk_dump_inverse.
+
+Theorem tls_roundtrip_records :
+  (forall m bytes rest, client_hello_wf m = true -> enc_seq (tree_client_hello m) = Ok bytes ->
+     decode_as pull_client_hello tk_client_hello (bytes ++ rest) = Ok (m, rest)) /\
+  (forall m bytes rest, server_hello_wf m = true -> enc_seq (tree_server_hello m) = Ok bytes ->
+     decode_as pull_server_hello tk_server_hello (bytes ++ rest) = Ok (m, rest)) /\
+  (forall m bytes rest, new_session_ticket_wf m = true -> enc_seq (tree_new_session_ticket m) = Ok bytes ->
+     decode_as pull_new_session_ticket tk_new_session_ticket (bytes ++ rest) = Ok (m, rest)) /\
+  (forall m bytes rest, encrypted_extensions_wf m = true -> enc_seq (tree_encrypted_extensions m) = Ok bytes ->
+     decode_as pull_encrypted_extensions tk_encrypted_extensions (bytes ++ rest) = Ok (m, rest)) /\
+  (forall m bytes rest, enc_seq (tree_certificate m) = Ok bytes ->
+     decode_as pull_certificate tk_certificate (bytes ++ rest) = Ok (m, rest)) /\
+  (forall m bytes rest, certificate_request_wf m = true -> enc_seq (tree_certificate_request m) = Ok bytes ->
+     decode_as pull_certificate_request tk_certificate_request (bytes ++ rest) = Ok (m, rest)) /\
+  (forall m bytes rest, certificate_verify_wf m = true -> enc_seq (tree_certificate_verify m) = Ok bytes ->
+     decode_as pull_certificate_verify tk_certificate_verify (bytes ++ rest) = Ok (m, rest)).
+Proof. exact TlsDumpInverse.tls_roundtrip_records. Qed.
+Print Assumptions tls_roundtrip_records.
+
+(* ---- transport parameters: decode, then re-encode ---- *)
+Theorem tparams_reencode : forall bs r, bytes_ok bs -> Zlen bs <= 65536 -> pull_qtp bs = Ok r ->
+  qtp_wf r = true /\ exists bytes', flatten (push_qtp r) = Ok bytes' /\ pull_qtp bytes' = Ok r.
+Proof. exact TParamsReencode.tparams_reencode. Qed.
+Print Assumptions tparams_reencode.
+
+Theorem tparams_reencode_limit : forall b, 65536 < Zlen b ->
+  flatten (push_quic_transport_parameters [(0, PBytes b)]) = Err E_WRITE.
+Proof. exact TParamsReencode.tparams_reencode_limit. Qed.
+Print Assumptions tparams_reencode_limit.
+
+(* ---- F13 in general: extension_length of a known extension is never used ---- *)
+Theorem parsers_len_blind :
+  len_blind parse_client_hello_ext /\ len_blind parse_server_hello_ext /\ len_blind parse_nst_ext /\
+  len_blind parse_ee_ext /\ len_blind parse_cr_ext.
+Proof. exact TlsTotal.parsers_len_blind. Qed.
+Print Assumptions parsers_len_blind.
+
+Theorem ext_length_ignored_general : forall parse ch st ty len len' b,
+  len_blind parse -> parse ty len b <> None ->
+  0 <= ty < 65536 -> 0 <= len < 65536 -> 0 <= len' < 65536 ->
+  ext_item parse ch st (be_enc 2 ty ++ be_enc 2 len ++ b) =
+  ext_item parse ch st (be_enc 2 ty ++ be_enc 2 len' ++ b).
+Proof. exact TlsTotal.ext_length_ignored_general. Qed.
+Print Assumptions ext_length_ignored_general.
